@@ -20,10 +20,10 @@ import (
 type CrashCfg struct {
 	Folder   string   `json:"folder"`
 	Program  *Program `json:"program"`
-	CrashAt  int      `json:"crash_at"`   // backend call index of the victim's commit at which the process exits (0 = none)
-	OffsetMs int64    `json:"offset_ms"`  // recover: sop.Now runs this far ahead of the wall clock
+	CrashAt  int      `json:"crash_at"`  // backend call index of the victim's commit at which the process exits (0 = none)
+	OffsetMs int64    `json:"offset_ms"` // recover: sop.Now runs this far ahead of the wall clock
 	Out      string   `json:"out"`
-	Later    int      `json:"later"`      // recover: number of later maintenance transactions
+	Later    int      `json:"later"` // recover: number of later maintenance transactions
 }
 
 // crashChild: prefix transactions commit, the victim (last transaction) dies inside its commit.
